@@ -61,10 +61,18 @@ class Run:
         out = os.path.join(self.scratch, "vcheck-race" if race else "vcheck")
         if os.path.exists(out):
             return out
-        gosum = os.path.join(HARNESS, "go.sum")
+        hdir = HARNESS
+        if REPO != "/repo":
+            # developer mode (seed sweeps): build against another checkout without touching /repo
+            hdir = os.path.join(self.scratch, "harness-src")
+            if not os.path.exists(hdir):
+                shutil.copytree(HARNESS, hdir)
+                gm = open(os.path.join(hdir, "go.mod")).read().replace("=> /repo", "=> " + REPO)
+                open(os.path.join(hdir, "go.mod"), "w").write(gm)
+        gosum = os.path.join(hdir, "go.sum")
         shutil.copyfile(os.path.join(REPO, "go.sum"), gosum)
         cmd = ["go", "build"] + (["-race"] if race else []) + ["-o", out, "./cmd/vcheck"]
-        r = subprocess.run(cmd, cwd=HARNESS, env=GOENV, capture_output=True, text=True)
+        r = subprocess.run(cmd, cwd=hdir, env=GOENV, capture_output=True, text=True)
         if r.returncode != 0:
             raise Infra("harness build failed (does /repo still compile?):\n" + r.stdout + r.stderr)
         return out
@@ -309,13 +317,14 @@ class Run:
         reported = {}
         for v in fresh:
             reported.setdefault(v["clause"], v)
-        os.makedirs(os.path.join(VERIF, "replay"), exist_ok=True)
+        rdir = os.environ.get("VERIF_REPLAY_DIR") or os.path.join(VERIF, "replay")
+        os.makedirs(rdir, exist_ok=True)
         for clause, v in sorted(reported.items()):
             body = json.dumps({"property": self.prop, "clause": clause, "family": v["family"], "seed": self.seed,
                                "tier": self.tier, "case": v["case"], "observed": v["event"],
                                "explain": v.get("explain", "")}, indent=1, sort_keys=True)
             h = hashlib.sha256(body.encode()).hexdigest()[:12]
-            path = os.path.join(VERIF, "replay", "%s-%s.json" % (self.prop, h))
+            path = os.path.join(rdir, "%s-%s.json" % (self.prop, h))
             with open(path, "w") as f:
                 f.write(body)
             print("VIOLATION property=%s replay=%s clause=%s case=%s" % (self.prop, path, clause, v.get("case_id")))
@@ -337,8 +346,9 @@ class Run:
             cov.update(coverage_extra)
         ev = {"property_id": self.prop, "tier": self.tier, "seed": self.seed, "level": level, "coverage": cov,
               "assumptions": self.assumptions, "wall_s": round(time.time() - self.t0, 2), "violations": len(reported)}
-        os.makedirs(os.path.join(VERIF, "evidence"), exist_ok=True)
-        with open(os.path.join(VERIF, "evidence", self.prop + ".json"), "w") as f:
+        evdir = os.environ.get("VERIF_EVIDENCE_DIR") or os.path.join(VERIF, "evidence")
+        os.makedirs(evdir, exist_ok=True)
+        with open(os.path.join(evdir, self.prop + ".json"), "w") as f:
             json.dump(ev, f, indent=1, sort_keys=True)
         return 1 if reported else 0
 
